@@ -326,8 +326,22 @@ def _choose(ctx, p, fn, b, cfs, cdefs, pdefs, cont, st_terms, sf, r_choose):
                 if (r - {'un'}) <= {'lt', 'eq'} and 'lt' in r:
                     oks = True
         n_strict += 1
+        # every neighbour is a candidate: the candidate definition sits in a loop that iterates over the whole list
+        oke = P.iter_source(pts, pickers_only_next=True) is not None and any(pb in L['body'] for L in fn.loops())
+        if oke:
+            L = min([L for L in fn.loops() if pb in L['body']], key=lambda l: len(l['body']))
+            # no exit from that loop other than the iterator's end
+            for (src, dst) in L['exits']:
+                si = fn.switch_info(src)
+                if not (si and all(x[0] == 'discr' for x in si[0])) and fn.blocks[dst]['term']['k'] != 'unreachable':
+                    oke = False
+        if not oke:
+            r_choose.violations.append(Violation('C17', 'C17.choose', b.path, 'not-exhaustive',
+                                                 'not every neighbour is tried as a parent (a single pre-selected candidate, or a loop that can stop early): '
+                                                 'when the cheapest neighbour is blocked, cheaper reachable neighbours are never considered',
+                                                 loc=fn.loc(pb, pi_), ordinal=k))
         r_choose.inst('%s: candidate %s replaces the best only if strictly cheaper; drawn from neighbours(new state)' % (b.path, fmt_terms(pts)[:50]),
-                      ok=okl and oks, site=fn.loc(pb, pi_))
+                      ok=okl and oks and oke, site=fn.loc(pb, pi_))
         if not oks:
             r_choose.violations.append(Violation('C17', 'C17.choose', b.path, 'not-strict',
                                                  'a neighbour becomes the parent without a `cost via neighbour < best cost so far` test',
